@@ -204,10 +204,19 @@ def o93(ctx):
     # ... and all of them: the only selection on the caller's point table is the one by group value
     chain_ = pit.space.chain() if isinstance(pit, Arr) and pit.space is not None else None
     ctx.count(1, {"rows of the query points": chain_})
-    if chain_ is not None and any(w_ in chain_ for w_ in ("dedup", "sample", "head", "sort")):
-        ctx.finding(q, loops[1].node, f"the point table is reduced before the per-group selection ({chain_}): a reference position that occurs in "
-                    "several groups (tomograms) survives in one of them only, and the particles around it are kept in the others",
-                    loops[1].node, m)
+    steps_ = []
+    sp_ = pit.space if isinstance(pit, Arr) else None
+    while sp_ is not None:
+        steps_.append((sp_.name, sp_.how))
+        sp_ = sp_.parent
+    # exactly: the caller's table, one selection (the one by group value, checked above); conversions that keep every row apart
+    extra_steps = [s_ for s_ in steps_[1:-1] if s_[1] not in ("same", "values")] if len(steps_) >= 2 else []
+    if chain_ is not None and (extra_steps or any(w_ in chain_ for w_ in ("dedup", "sample", "head", "sort"))):
+        if not any(w_ in chain_ for w_ in ("dedup", "sample", "head", "sort")) and not all(s_[1] in ("filter", "slice", "dedup") or s_[0] in ("dropna",) for s_ in extra_steps):
+            raise Unsupported(f"the point table goes through a step that is not modelled before the per-group selection ({chain_})", loops[1].node)
+        ctx.finding(q, loops[1].node, f"the point table is reduced before the per-group selection ({chain_}): every reference point the caller "
+                    "gave counts -- a point that is dropped (a duplicate position of another group, a row with a missing value in some other column, "
+                    "the rows beyond a cut) leaves the particles around it in the result", loops[1].node, m)
     r_ = balls[0].kwargs.get("r", balls[0].args[2] if len(balls[0].args) > 2 else None)
     ctx.count(1)
     if r_ is None or to_term(r_) != sym("radius"):
@@ -532,4 +541,4 @@ def _obligations():
 
 
 def obligations():
-    return _obligations() + [constructors_obligation(['cryomotl.Motl', 'cryomotl.EmMotl']), labels_obligation("C09"), selectors_obligation("C09"), effects_obligation("C09"), plumbing_obligation("C09"), overrides_obligation("C09"), options_obligation("C09")]
+    return _obligations() + [constructors_obligation(['cryomotl.Motl', 'cryomotl.EmMotl']), labels_obligation("C09"), selectors_obligation("C09"), effects_obligation("C09"), plumbing_obligation("C09"), overrides_obligation("C09"), options_obligation("C09"), handlers_obligation("C09")]
